@@ -26,7 +26,7 @@ def generate(seed, mode="c09", opts=None):
     ngen = ch.rint(1, 4, "ngen")
     gens = []
     for g in range(ngen):
-        shape = ch.pick(["P1", "P2", "P3", "P4"], "shape")
+        shape = ch.pick(["P1", "P2", "P3", "P4", "P0"], "shape")
         body = ch.weighted([(5, "build"), (3 if g > 0 else 0, "call"), (2 if g > 0 else 0, "pass"), (2, "raise_n")], "body")
         callee = ch.draw(g, "callee") if g > 0 else None
         gens.append({"shape": shape, "body": body, "callee": callee, "n_fail": ch.rint(1, 2, "nfail") if body == "raise_n" else 0, "cache": True})
@@ -53,7 +53,12 @@ def generate(seed, mode="c09", opts=None):
     return {"profile": "genp", "mode": mode, "seed": seed, "gens": gens, "ops": ops, "reorder": order, "sched": [ch.pick(seams.POLICIES, "policy"), 0]}
 
 
+NEAR = [0.3, 0.1 + 0.2, 0.30000000000000004, 0.29999999999999993, 1e22, 1e22 + 2e6, 1.0, 1.0000000000000002]
+
+
 def draw_params(ch, shape):
+    if shape == "P0":
+        return {}
     few = ch.chance(2, 3)  # small pools make equal parameters frequent
     sp = STR_POOL[:6] if few else STR_POOL
     ip = INT_POOL[:3] if few else INT_POOL
@@ -61,6 +66,8 @@ def draw_params(ch, shape):
     if shape == "P1":
         return {"a": ch.pick(ip, "a"), "b": ch.pick(sp, "b")}
     if shape == "P2":
+        if ch.chance(1, 4):  # unequal floats that agree to many digits
+            return {"a": ch.pick([None, "x"], "a"), "b": None, "c": ch.pick(NEAR, "near")}
         if ch.chance(1, 3):  # values built from other parameters' rendered k=v text
             cp = ["x", "x b=y", "y b=z", "z", "None", None]
             return {"a": ch.pick(cp, "a"), "b": ch.pick(cp, "b"), "c": 0.0}
@@ -88,7 +95,7 @@ class Env:
         P2 = h.paramclass(type("P2", (), {"a": h.Param(dtype=Optional[str], desc="a", default=None), "b": h.Param(dtype=Optional[str], desc="b", default=None), "c": h.Param(dtype=float, desc="c", default=0.0)}))
         P3 = h.paramclass(type("P3", (), {"n": h.Param(dtype=P1, desc="n"), "e": h.Param(dtype=Color, desc="e"), "s": h.Param(dtype=h.Scalar, desc="s")}))
         P4 = h.paramclass(type("P4", (), {"m": h.Param(dtype=h.Instantiable, desc="m"), "k": h.Param(dtype=int, desc="k")}))
-        self.P = {"P1": P1, "P2": P2, "P3": P3, "P4": P4}
+        self.P = {"P1": P1, "P2": P2, "P3": P3, "P4": P4, "P0": h.HasNoParams}
         ma = h.Module(name="ModA")
         ma.p = h.Port()
         mb = h.Module(name="ModB")
@@ -100,6 +107,8 @@ class Env:
 
     def params(self, shape, spec):
         h = self.h
+        if shape == "P0":
+            return h.NoParams
         if shape == "P1":
             return self.P["P1"](**spec)
         if shape == "P2":
@@ -153,6 +162,8 @@ class Env:
             if gid == callee:
                 shape = [k for k, v in self.P.items() if v is gen.Params][0]
         tag = repr_params(p)
+        if shape == "P0":
+            return self.h.NoParams
         if shape == "P1":
             return self.P["P1"](a=len(tag), b=tag)
         if shape == "P2":
@@ -268,7 +279,10 @@ def exec_calls(arg):
                     if after_runs != before_runs + 1 and g["body"] != "pass":
                         probe("first_call_body_runs_%d" % (after_runs - before_runs))
                     # distinct from every module returned for unequal parameters of this generator
+                    collapses = _collapses(scn["gens"], gid)
                     for (g2, p2), j in model.items():
+                        if collapses:
+                            break  # a pass-through to a parameter-less generator returns one module by construction
                         if g2 == gid and j != i and results[j] is m:
                             fail("unequal-params-same-module", f"calls #{j} and #{i}: unequal parameters {repr_params(p2)} / {repr_params(p)} returned one Module")
                         elif g2 == gid and j != i and results[j].name == m.name:
@@ -312,6 +326,16 @@ def exec_calls(arg):
             probe("exports")
             check_names()
     return {"obs": obs, "findings": findings, "probes": probes, "sched": seams.get_sched().stats(), "memo_hits": probes.get("memo_hit", 0)}
+
+
+def _collapses(gens, gid):
+    """A pass-through chain that ends in a parameter-less generator returns one module for all parameters."""
+    g = gens[gid]
+    if g["shape"] == "P0":
+        return True
+    if g["body"] != "pass":
+        return False
+    return _collapses(gens, g["callee"])
 
 
 def _qual(h, m):
